@@ -150,6 +150,9 @@ func GenEnv(t *rapid.T, opt EnvOpt) Env {
 	case "deposit":
 		e.User = pick(t, "env/user", PlainUsers)
 		e.Denom = pick(t, "env/denom", world.EscrowDenoms)
+		if world.SynthDenom != "" && chance(t, "env/synthetic", 8) {
+			e.Denom = world.SynthDenom // synthetic Hyperlane coins sent to the orbiter account
+		}
 		e.Amount = pick(t, "env/amount", []string{"1", "7", "1000", "999999999"})
 		if Chance(t, "env/whale", 12) {
 			// amounts around and beyond the 64-bit boundary, from an account that holds them
